@@ -128,7 +128,9 @@ class ScriptedResidual:
         if L.level_index == 0:
             S = type(self).current_steps.get(id(L))
             if S is not None:
-                L.status.residual = type(self).table.get((S.status.slot, S.status.iter), type(self).default)
+                T = type(self).table
+                tk = ('t', round(L.time, 9), S.status.iter)
+                L.status.residual = T[tk] if tk in T else T.get((S.status.slot, S.status.iter), type(self).default)
 
 
 class ScriptedImplicit(ScriptedResidual, generic_implicit):
